@@ -33,6 +33,7 @@ def check_C11(rep, prog, tier):
     A.ob_cmp_transitive(rep, prog, NT, dl)
     A.ob_append(rep, prog, N - 2, dl)
     walk_order(rep, prog, tier, dl)
+    written_index_order(rep, prog, tier, dl)
 
 
 WALK_SHAPES_QUICK = [(['F', 'F', 'F'], [1, 2]), (['F', 'S', ('D', [])], [2, 1]),
@@ -43,6 +44,19 @@ WALK_SHAPES_QUICK = [(['F', 'F', 'F'], [1, 2]), (['F', 'S', ('D', [])], [2, 1]),
 WALK_SHAPES_THOROUGH = WALK_SHAPES_QUICK + [
     ([('D', ['F', 'F']), 'F', ('D', ['F'])], [2, 1]), ([('D', ['F', ('D', ['F', 'F'])]), ('D', [('D', ['F'])]), 'F', 'F'], [1, 2]),
     ([('D', [('D', [('D', ['F'])]), 'F']), ('D', ['F', 'F']), 'S'], [1, 1, 2]), (['F', 'F', 'F', 'F'], [2])]
+
+
+def written_index_order(rep, prog, tier, dl):
+    """C11, written-index clause: the real backup() on nested names around '/' (files small enough to be combined, so that the
+    hunk sort in IndexWriter::finish_hunk matters); the store is read back and must be strictly increasing (same cases as C13)."""
+    from . import backup_checks as BC
+    nested = ['/a', '/a b', '/a.d', '/a/sub', '/a/sub/f', '/a b/g', '/a.d/h']
+    cases = []
+    for opts in ((64, 16, 1000), (64, 16, 3), (4, 16, 1000)) if tier == 'quick' else ((64, 16, 1000), (64, 16, 3), (4, 16, 1000), (64, 16, 2), (64, 0, 1000)):
+        cases.append(dict(kinds='DDDDFFF', classes=[0, 0, 0, 0, 1, 2, 3], mode='none', paths=nested, sizes=[0, 0, 0, 0, 5, 6, 7], fixed_opts=opts))
+    rep.bounds['written_index'] = {'names': nested, 'options (max_block_size, small_file_cap, max_entries_per_hunk)': [c['fixed_opts'] for c in cases]}
+    BC.run_cases(rep, prog, cases, dl, 'C11', 'the index a backup writes for nested names around "/" is strictly increasing within and across hunks (independent reading of the store)',
+                 require=[r'event-free run'])
 
 
 def walk_order(rep, prog, tier, dl):
@@ -861,6 +875,9 @@ def check_C01(rep, prog, tier):
                            R.make_meta(prog, True), dl, 'C01', _judge_meta)
     run_restore_obligation(rep, prog, 'restore reproduces kind, bytes, target, mtime and mode when chown is not permitted',
                            R.make_meta(prog, False), dl, 'C01', _judge_meta)
+    rep.bounds['odd_names'] = R.ODD_NAMES
+    run_restore_obligation(rep, prog, 'entries with unusual but legal names (control characters, bytes below "/", DEL, multi-byte, dots) restore like any other',
+                           R.make_names(prog), dl, 'C01', _judge_meta)
     shapes = [('F', [1]), ('FF', [1, 2]), ('FF', [1, 1])] if tier == 'quick' else [('F', [1]), ('FF', [1, 2]), ('FF', [1, 1]), ('FFF', [1, 2, 3]), ('DSF', [0, 0, 1])]
     cases = _bcases(shapes, ['none']) + _bcases([('FS', [1, 0])], ['none'], sym_meta=True)
     rep.bounds['backup_cases'] = [BC.case_name(c) for c in cases]
